@@ -96,6 +96,7 @@ type c01Case struct {
 	Multi   bool        `json:"multi"`
 	Editor  string      `json:"editor"`          // missing | ok | fail
 	Bound   []string    `json:"bound,omitempty"` // commands without a default binding, bound to C-x C-z a, b, ...
+	Hilite  bool        `json:"hilite,omitempty"` // the application sets a SyntaxHighlighter
 	Plan    []sess.Step `json:"plan"`
 	Exit    []sess.Step `json:"exit"`
 	ExitTag string      `json:"exit_tag"`
@@ -384,6 +385,7 @@ func c01Gen(r *rand.Rand, tier string, idx int) any {
 	} else {
 		c.Plan = limitDigits(genScript(r, c.Mode == "vi", n), 4)
 	}
+	c.Hilite = r.Intn(5) == 0
 	if ub := unboundCommands(); len(ub) > 0 && r.Intn(3) == 0 {
 		// commands no default keymap binds: a user configuration can, so they are bound here
 		for i, n := 0, 1+r.Intn(6); i < n; i++ {
@@ -481,6 +483,20 @@ func c01Run(env *fw.Env, raw json.RawMessage) fw.Outcome {
 			// (main keymaps and the visual one: the keymaps an inputrc file names)
 			for _, km := range []string{"emacs", "vi-insert", "vi-command", "vi-visual"} {
 				s.Sh.Config.Bind(km, c01Probe+string(rune('a'+i)), name, false)
+			}
+		}
+		if c.Hilite {
+			// an application's highlighter: colours every other word, as shells do
+			s.Sh.SyntaxHighlighter = func(line []rune) string {
+				var sb strings.Builder
+				for i, w := range strings.SplitAfter(string(line), " ") {
+					if i%2 == 0 {
+						sb.WriteString("\x1b[32m" + w + "\x1b[0m")
+					} else {
+						sb.WriteString(w)
+					}
+				}
+				return sb.String()
 			}
 		}
 	}
